@@ -237,6 +237,10 @@ def equiv_headtail(ref, got, progname, order_free=False, index_free=False):
     if r is not False:
         return r
     toks = set(progname.replace("|", ":").split(":"))
+    sorted_prog = any(w in progname for w in ("sort", "set_index", "nlargest", "nsmallest"))
+    if not sorted_prog and progname not in ("head", "tail"):
+        # the tolerance exists for head/tail pushed below a SORT only (rule-level callers pass the bare words head / tail)
+        return False
     try:
         if len(got) > len(ref) > 0 or (len(ref) == 0 and len(got) > 0):
             if toks & {"tail", "tail2"} or "tail" in progname:
